@@ -37,7 +37,7 @@ ASSUMPTIONS = [
     "'the end marker' = EI followed by a byte for which bytes.isspace() is true; inline data is written as ID<space>data<LF>EI<LF> and does not end in CR",
     "export formats limited to those that do not need Pillow (DCT pass-through, 1-bit / 8-bit gray / 8-bit RGB bitmaps)",
 ]
-PROBES = ["dct behind further filters", "same XObject drawn twice", "inline image ending at the ASCII85 marker", "inline image", "xobject image", "gray8", "rgb8", "1bit", "dct", "filter chain", "unfiltered", "row padding needed", "boundary placed in inline markers", "contents split after image", "inline data contains EI", "preexisting export name", "two images same name", "bmp exported", "jpg exported"]
+PROBES = ["dct data continues behind the EOI marker", "CR after ID and data starting with LF", "dct behind further filters", "same XObject drawn twice", "inline image ending at the ASCII85 marker", "inline image", "xobject image", "gray8", "rgb8", "1bit", "dct", "filter chain", "unfiltered", "row padding needed", "boundary placed in inline markers", "contents split after image", "inline data contains EI", "preexisting export name", "two images same name", "bmp exported", "jpg exported"]
 TIERS = {
     "quick": {"batches": 16, "runs": 450, "budget_s": 50},
     "thorough": {"batches": 128, "runs": 500, "budget_s": 1200},
@@ -78,6 +78,10 @@ def gen_image(t, ctx, idx):
         rowlen, bits, cs = 3 * w, 8, "DeviceRGB"
     if kind == "dct":
         samples = b"\xff\xd8\xff\xe0" + bytes(t.draw(256, "jpg.b") for _ in range(t.rint(4, 60, "jpg.n"))) + b"\xff\xd9"
+        if t.coin(30, 100, "jpg.trail"):
+            # stored bytes behind the end-of-image marker belong to the stored data too (byte for byte)
+            samples += t.pick([b"\n", b"\r\n", b"\x00\x00", b"\xff\xd9\x00", b"trailer"], "jpg.trailbytes")
+            ctx.probe("dct data continues behind the EOI marker")
         chain = ["DCTDecode"]
         data = samples
         if t.coin(35, 100, "dct.outer"):
@@ -164,7 +168,11 @@ def build_document(t, ctx, images, page_of, with_images=True):
             if im["chain"]:
                 fl = b" ".join(b"/" + (ABBR_F[f] if abbr else f).encode() for f in im["chain"])
                 d += (b"/F " if abbr else b"/Filter ") + (b"[" + fl + b"]" if len(im["chain"]) > 1 or t.coin(30, 100, "inl.farr") else fl) + b" "
-            head = place + b"BI " + d + b"ID "
+            # ID is followed by exactly one white-space byte; the byte after it is the first byte of the data whatever it is
+            sep = t.pick([b" ", b" ", b"\n", b"\r", b"\t"], "inl.idsep") if not (im["chain"] and im["chain"][0] in ("ASCII85Decode", "ASCIIHexDecode")) else b" "
+            if sep == b"\r" and im["data"][:1] == b"\n":
+                ctx.probe("CR after ID and data starting with LF")
+            head = place + b"BI " + d + b"ID" + sep
             seg = head + im["data"] + b"\nEI\n" + b"Q "
             if pg == 0:
                 base = pos[pg] + len(head)
